@@ -19,7 +19,7 @@ LEVEL = ("Generated-input exploration: for every training sample an LP over the 
 BUDGET = {"quick": 300, "thorough": 8000}
 WATCHDOG = {"quick": 60, "thorough": 240}
 RULE = ("Cases: 1..3 hull dimensions, 0..3 additional high-dimensional columns, any choice and order of low_dim_idx, n in ld+3..20 "
-        "(thorough 60) generic samples, convex (noisy paraboloid) or non-convex targets, 5 query points inside the footprint (convex "
+        "(thorough 60) generic samples (a third of the cases with 1..3 samples placed at exactly the low-dimensional position of another one), convex (noisy paraboloid) or non-convex targets, 5 query points inside the footprint (convex "
         "combinations) at drawn vertical offsets, 1..5 added samples strictly above the hull, y -> a y + b with a in (0.1,10).  "
         "Non-trivial: at least one selected and one unselected training sample were decided by the LP (margin > 1e-7 x range(y)); "
         "distinct = SHA-1 of the canonical case.")
@@ -48,9 +48,18 @@ def strategy_(draw, tier):
     X = gen.normal(draw, (n, F))
     convex = draw(st.booleans())
     rng = gen.rng_of(draw)
+    shared = 0
+    if draw(st.integers(0, 2)) == 0:
+        # several samples at exactly the same low-dimensional position (anywhere, in any order), with different targets
+        for _ in range(draw(st.integers(1, 3))):
+            i, j = rng.integers(0, n, size=2)
+            # (the footprint keeps at least ld + 2 distinct positions)
+            if i != j and len(np.unique(X[:, low], axis=0)) - 1 >= ld + 2:
+                X[i, low] = X[j, low]
+                shared += 1
     y = (X[:, low] ** 2).sum(1) * rng.uniform(0.2, 2) + rng.normal(size=n) * (0.05 if convex else 1.0)
     k = draw(st.integers(1, 5))
-    return {"X": X, "y": y, "low": low, "convex": convex, "qlam": rng.dirichlet(np.ones(n), size=5), "qoff": rng.normal(size=5) * 0.3,
+    return {"X": X, "y": y, "low": low, "convex": convex, "shared": shared, "qlam": rng.dirichlet(np.ones(n), size=5), "qoff": rng.normal(size=5) * 0.3,
             "alam": rng.dirichlet(np.ones(n), size=k), "aoff": rng.uniform(0.01, 2, size=k), "ahigh": rng.normal(size=(k, F)),
             "a": float(rng.uniform(0.1, 10)), "b": float(rng.normal() * 5)}
 
@@ -81,7 +90,7 @@ def check(case, ctx):
     n, F = X.shape
     ld = len(low)
     hd = F - ld
-    ctx.cls("ld=%d" % ld, "hd=%d" % hd, "convex=%s" % case["convex"])
+    ctx.cls("ld=%d" % ld, "hd=%d" % hd, "convex=%s" % case["convex"], "shared_positions=%s" % bool(case.get("shared")))
     with ctx.lib("fit"):
         d = DCH(low_dim_idx=list(low)).fit(X, y)
         sc = np.asarray(d.score_samples(X, y))
